@@ -322,6 +322,7 @@ type taskCall struct {
 	got                string
 	yields             int64
 	panic              bool
+	unstable           bool // the call's result varies when it is repeated alone
 }
 
 // Execute runs outside a synctest bubble: in a -race build the testing
@@ -486,7 +487,19 @@ func execute(s *engine.Script, o *engine.Outcome) {
 			y := schedYields()
 			schedCountOnly(false)
 			if again != tc.want {
-				o.Violate("C18/result-differs-when-the-call-is-repeated/"+tc.c.name, "task %d call %d %s on a fresh %s: %s", id, ci, tc.c.name, vop.Struct, diff(tc.want, again))
+				// A third execution tells a call that remembered its first execution
+				// (second and third agree) from one whose result is not a function of
+				// the value at all (it reads a clock the simulator does not own, or
+				// entropy): for the latter "the result it would return alone" is not
+				// defined, and no result oracle judges it in this run.
+				pv3, tw3 := private(), private()
+				third, _ := safeCall(tc.c, pv3, tw3)
+				if third == again {
+					o.Violate("C18/result-differs-when-the-call-is-repeated/"+tc.c.name, "task %d call %d %s on a fresh %s: %s", id, ci, tc.c.name, vop.Struct, diff(tc.want, again))
+				} else {
+					tc.unstable = true
+					o.Probe("call_result_varies_when_repeated_alone:" + tc.c.name)
+				}
 			} else if y != tc.yields {
 				o.Violate("C18/read-only-calls-left-a-trace/"+tc.c.name, "task %d call %d %s: executed %d statements on a fresh %s the first time and %d when repeated on another fresh instance of the same value", id, ci, tc.c.name, tc.yields, vop.Struct, y)
 			}
@@ -536,7 +549,7 @@ func execute(s *engine.Script, o *engine.Outcome) {
 	}
 	for id, calls := range tasks {
 		for ci, tc := range calls {
-			if tc.got != tc.want {
+			if tc.got != tc.want && !tc.unstable {
 				o.Violate("C18/result-differs-from-solo-execution/"+tc.c.name, "task %d call %d %s on a shared %s: %s", id, ci, tc.c.name, vop.Struct, diff(tc.want, tc.got))
 			}
 			o.FP.Step("call", id, ci, tc.c.name, tc.got)
